@@ -992,7 +992,22 @@ def x_sysexit(c):
     c.outs.append((s1, "raise", Exc("SystemExit", [c.site], (), "explicit", "sys.exit()")))
 
 
-@ext("logging.*", "warnings.warn")
+@ext("warnings.warn", "warnings.warn_explicit")
+def x_warn(c):
+    """warnings.warn(): what it does is decided by the process-wide warnings filter ("error"
+    turns it into an exception of the category, "once"/"default" consult and update the
+    per-module registry) - an ambient read, and a possible raise of the warning class"""
+    cat = c.arg(1, "category")
+    name = "UserWarning"
+    if cat is not None and isinstance(cat, tuple) and len(cat) == 2 and cat[0] == "global" and cat[1].startswith(("builtin:", "class:")):
+        name = cat[1].split(":", 1)[1].split(".")[-1]
+    elif cat is not None and not (is_const(cat) and cat[2] is None):
+        name = "Warning"
+    c.rz(name, "warnings.warn() under a filter that turns warnings into errors", pure=False, origin="ambient-filter")
+    c.ret(C(None), pure=False, extra_event=("ambient", c.site, "ext:warnings.filters"))
+
+
+@ext("logging.*")
 def x_logging(c):
     # handlers swallow emit errors (logging.raiseExceptions only prints); not a stdout sink
     if c.callee.endswith(("getLogger", "Logger")):
